@@ -19,6 +19,8 @@ static unsigned short& K(Elem& e) { return e._k; }
 static unsigned short& P(Elem& e) { return e._v; }
 static unsigned short& K(FieldTrait& e) { return e._fnum; }
 static unsigned short& P(FieldTrait& e) { return e._pos; }
+static Elem mk(unsigned short k, Elem *) { return Elem(k); }
+static FieldTrait mk(unsigned short k, FieldTrait *) { return FieldTrait(k, FieldTrait::ft_int, 0); }     // every member defined (the key-only ctor leaves _ftype indeterminate)
 static int bad;
 #define CHECK(c, ...) do { if (!(c)) { ++bad; printf("C12 " __VA_ARGS__); printf("\n"); fflush(stdout); } } while (0)
 
@@ -27,23 +29,23 @@ template<typename Set, typename T> int run_set(int op, size_t sz, size_t rsz, si
   if (op == 4)
   {
     // base case: the real constructors; isnull selects the empty constructor
-    T *tab(new T[sz ? sz : 1]); for (size_t i = 0; i < sz; ++i) { K(tab[i]) = k[i]; P(tab[i]) = (unsigned short)(100 + i); }
+    T *tab(new T[sz ? sz : 1]); for (size_t i = 0; i < sz; ++i) { tab[i] = mk(k[i], (T*)0); P(tab[i]) = (unsigned short)(100 + i); }
     Set *c(isnull ? new Set(size_t(0), reserve) : new Set(tab, sz, reserve));
     CHECK(c->size() == (isnull ? 0 : sz) && c->size() <= c->rsize() && c->rsize() >= 1, "constructed set: size()=%zu rsize()=%zu (reserve argument %zu)", c->size(), c->rsize(), reserve);
     printf("C12 inserting one element into the constructed set\n"); fflush(stdout);
-    T what(key); auto r(c->insert(&what));
+    T what(mk(key, (T*)0)); auto r(c->insert(&what));
     CHECK(r.second == (isnull || std::find(k.begin(), k.end(), key) == k.end()), "insert after construction returned %d", int(r.second));
     printf("C12 set %s\n", bad ? "VIOLATED" : "ok");
     return bad ? 1 : 0;
   }
   Set s(size_t(0), reserve);
   const_cast<size_t&>(s._reserve) = reserve; s._sz = sz; s._rsz = rsz; s._arr = isnull ? nullptr : new T[rsz];
-  for (size_t i = 0; i < sz; ++i) { K(s._arr[i]) = k[i]; P(s._arr[i]) = (unsigned short)(100 + i); }
+  for (size_t i = 0; i < sz; ++i) { s._arr[i] = mk(k[i], (T*)0); P(s._arr[i]) = (unsigned short)(100 + i); }
   const bool present(std::find(k.begin(), k.end(), key) != k.end());
   const size_t pos(std::count_if(k.begin(), k.end(), [key](unsigned short x) { return x < key; }));
   if (op == 0)
   {
-    T what(key); P(what) = 777;
+    T what(mk(key, (T*)0)); P(what) = 777;
     auto r(s.insert(&what));
     CHECK(r.second == !present, "insert(%u) returned %d, key %s present", key, int(r.second), present ? "was" : "was not");
     CHECK(s.size() == sz + !present && s.size() <= s.rsize(), "after insert size=%zu rsize=%zu (was %zu)", s.size(), s.rsize(), sz);
@@ -72,7 +74,7 @@ template<typename Set, typename T> int run_set(int op, size_t sz, size_t rsz, si
   }
   else
   {
-    T two[2] = { T(key), T(key2) };
+    T two[2] = { mk(key, (T*)0), mk(key2, (T*)0) };
     s.insert(two, two + 2);
     std::vector<unsigned short> exp(k);
     if (!present) { exp.insert(exp.begin() + pos, key); if (std::find(exp.begin(), exp.end(), key2) == exp.end()) exp.insert(std::lower_bound(exp.begin(), exp.end(), key2), key2); }
